@@ -5,6 +5,7 @@ import StepModel.P21SafeSteps
 import StepModel.P21SafeSteps2
 import StepModel.P21SafeOwnLemmas
 import StepModel.P21SafeDataLemmas
+import StepModel.P21SafeData2Lemmas
 import StepModel.Generated.C05Buffers
 /-! # C05 — reading and writing Part 21 is memory-safe and terminates (the part Lean can carry)
 
@@ -584,6 +585,17 @@ theorem C05_aggr_doubleFree_witness :
 /-- not a safety matter but visible in the model: a `ReadValue` without any `delete item` (as `STEPaggregate::ReadValue` and
 `SelectAggregate::ReadValue` stand) never frees the scratch node of a validation-only read (API path `AggrValidLevel`; not reachable from file bytes) -/
 theorem C05_aggr_scratch_leak_witness : aggrRun ⟨none, none, none, none⟩ false true 2 .closed = .ok 1 := by decide
+
+/-- `STEPfile::FindDataSection` (strings and comments skipped, `DATA` + white space + `;` matched): ends with fuel
+`|bytes| + 2`, never un-reads, at most `4·(|bytes| + 1) + readCommentIters + 1` steps over all nesting levels -/
+theorem C05_steps_findDataSection (s : IS) :
+    ∃ r, findDataSection C05.skipInstanceSkipsComments C05.readCommentIters (s.rest.length + 2) s = .ok r ∧ r.s.m ≤ s.m ∧
+      r.steps ≤ 4 * (s.rest.length + 1) + C05.readCommentIters + 1 := by
+  have hm := IS.m_le s
+  obtain ⟨r, a, b, c⟩ := dataSecLoop_pot C05.readCommentIters C05.skipInstanceSkipsComments C05.readCommentIters
+    (s.rest.length + 2) (Nat.le_refl _) (s.rest.length + 2) (Nat.le_refl _) s 0 (by omega)
+  have := pot_le (R := C05.readCommentIters) s
+  exact ⟨r, a, b, by omega⟩
 
 /-- regenerated facts the file-level budget relies on (not modelled proofs): the comment limit and the error cut-off
 are finite constants of the size the constant `c₂` of the linear bound absorbs, and `PushPastImbedAggr` does not
